@@ -309,3 +309,189 @@ def aliases_of(fn, chain: str) -> list[str]:
         elif isinstance(n, ast.NamedExpr) and attr_chain(n.value) == chain:
             out.append(n.target.id)
     return out
+
+
+# ---------------------------------------------------------------------------------------------------
+# pyint extensions shared by C31 / C32 (added in the false-alarm hardening round; nothing above depends on them)
+
+import builtins as _builtins
+
+from ..pyint import DictRec as _DictRec
+from ..pyint import Interp as _Interp
+from ..pyint import Raised as _Raised
+from ..pyint import Rec as _Rec
+
+
+class GlobalsInterp(_Interp):
+    """pyint plus three pieces of Python semantics the codec cache needs:
+    * ``global X`` declarations: an assignment to a name the enclosing function declares global writes the module global
+      (kept in ``overrides``; ``gkeys`` lists what was written, so a rule can snapshot / restore that state);
+    * a name that is local to the running function but not bound yet raises ``UnboundLocalError``, a name that resolves
+      nowhere (and is no builtin) ``NameError`` - both as interpreted exceptions instead of an AnalysisError;
+    * ``isinstance(e, SomeError)`` on a caught exception follows the exception hierarchy."""
+
+    def __init__(self, *a, **k):
+        super().__init__(*a, **k)
+        self.gkeys: set = set()
+        self._scope: dict = {}
+
+    @staticmethod
+    def _fn_of(node):
+        fn = getattr(node, "_parent", None)
+        while fn is not None and not isinstance(fn, (ast.FunctionDef, ast.AsyncFunctionDef, ast.Lambda)):
+            fn = getattr(fn, "_parent", None)
+        return fn
+
+    def _scope_of(self, node):
+        """(names declared global, names bound locally, names bound inside comprehensions) of the function enclosing ``node``"""
+        fn = self._fn_of(node)
+        if fn is None:
+            return frozenset(), frozenset(), frozenset()
+        sc = self._scope.get(id(fn))
+        if sc is None:
+            glob, loc, comp = set(), set(), set()
+            if not isinstance(fn, ast.Lambda):
+                todo = list(fn.body)
+                while todo:
+                    n = todo.pop()
+                    if isinstance(n, (ast.FunctionDef, ast.AsyncFunctionDef, ast.ClassDef)):
+                        loc.add(n.name)
+                        continue
+                    if isinstance(n, ast.Lambda):
+                        continue
+                    if isinstance(n, ast.Global):
+                        glob.update(n.names)
+                    elif isinstance(n, ast.Name) and isinstance(n.ctx, (ast.Store, ast.Del)):
+                        loc.add(n.id)
+                    elif isinstance(n, ast.ExceptHandler) and n.name:
+                        loc.add(n.name)
+                    elif isinstance(n, (ast.Import, ast.ImportFrom)):
+                        loc.update((a.asname or a.name).split(".")[0] for a in n.names)
+                    elif isinstance(n, (ast.MatchAs, ast.MatchStar)) and n.name:
+                        loc.add(n.name)
+                    if isinstance(n, (ast.ListComp, ast.SetComp, ast.DictComp, ast.GeneratorExp)):
+                        # own scope - but a walrus inside binds in the function: pyint does not model that, keep such names out of the verdicts
+                        comp.update(x.id for x in ast.walk(n) if isinstance(x, ast.Name) and isinstance(x.ctx, ast.Store))
+                        continue
+                    todo.extend(ast.iter_child_nodes(n))
+            sc = self._scope[id(fn)] = (frozenset(glob), frozenset(loc - glob), frozenset(comp))
+        return sc
+
+    def assign(self, target, value, env, mod, depth):
+        if isinstance(target, ast.Name) and target.id in self._scope_of(target)[0]:
+            self.overrides[(mod.rel, target.id)] = value
+            self.gkeys.add((mod.rel, target.id))
+            return
+        return super().assign(target, value, env, mod, depth)
+
+    def name(self, ident, env, mod, depth, node):
+        if ident not in env and node is not None and ident in self._scope_of(node)[1]:
+            clo = env.get("$closure")
+            while clo is not None and ident not in clo:
+                clo = clo.get("$closure")
+            if clo is None:
+                raise _Raised("UnboundLocalError", ident)
+        try:
+            return super().name(ident, env, mod, depth, node)
+        except AnalysisError as e:
+            if "unbound name" in str(e) and not hasattr(_builtins, ident) and (node is None or ident not in self._scope_of(node)[2]):
+                raise _Raised("NameError", ident)
+            raise
+
+    def iterate(self, v, node):
+        import collections.abc as _abc
+
+        if isinstance(v, (_abc.ItemsView, _abc.KeysView, _abc.ValuesView)):  # incl. OrderedDict views (odict_items ...)
+            return list(v)
+        return super().iterate(v, node)
+
+    def builtin(self, name, args, kwargs, e, env, mod, depth):
+        if name == "isinstance" and len(args) == 2 and isinstance(args[0], str) and args[0].startswith("<exc:"):
+            flat, todo = [], [args[1]]
+            while todo:
+                c = todo.pop()
+                if isinstance(c, tuple) and c and c[0] == "$exc":
+                    flat.append(c[1])
+                elif isinstance(c, tuple) and c and c[0] == "$union":
+                    todo.extend(c[1])
+                elif isinstance(c, (tuple, list)):
+                    todo.extend(c)
+            return any(self.exc_isa(args[0][5:-1], n, mod) for n in flat)
+        return super().builtin(name, args, kwargs, e, env, mod, depth)
+
+    # -- module-global state written through ``global`` declarations
+    def global_state(self) -> dict:
+        return {k: self.overrides[k] for k in self.gkeys if k in self.overrides}
+
+    def set_global_state(self, state: dict) -> None:
+        for k in self.gkeys:
+            self.overrides.pop(k, None)
+        self.overrides.update(state)
+
+
+class Warnings:
+    """Trusted stand-in for the stdlib ``warnings`` module: emitting a warning has no effect on any result."""
+
+    _pyint_accepts_abstract = True
+
+    def warn(self, *a, **k):
+        return None
+
+    def warn_explicit(self, *a, **k):
+        return None
+
+
+def canon(v):
+    """Hashable, identity-free rendering of an interpreted value (namedtuple / record / containers)."""
+    if isinstance(v, _Rec):
+        items = tuple(sorted((k, canon(x)) for k, x in vars(v).items() if not k.startswith("_")))
+        extra = tuple(sorted((canon(k), canon(x)) for k, x in v._items.items())) if isinstance(v, _DictRec) else ()
+        return ("rec", v._cls, items, extra)
+    if isinstance(v, tuple):
+        return ("tuple", tuple(getattr(v, "_fields", ())), tuple(canon(x) for x in v))
+    if isinstance(v, list):
+        return ("list", tuple(canon(x) for x in v))
+    if isinstance(v, dict):
+        return ("dict", tuple(sorted(((canon(k), canon(x)) for k, x in v.items()), key=repr)))
+    if isinstance(v, (set, frozenset)):
+        return ("set", tuple(sorted((canon(x) for x in v), key=repr)))
+    if isinstance(v, (str, bytes, int, float, bool, type(None))):
+        return (type(v).__name__, v)
+    return ("obj", repr(v))
+
+
+class CodecStub:
+    """Stand-in for a compression codec function ``decode_<x>`` / ``encode_<x>`` (the libraries are trusted, never run):
+    ``encode_x(b) = b'x(' + b + b')'`` and ``decode_x`` is its exact inverse, raising ValueError on anything else -
+    an injective, canonical codec pair, so a stale or mis-keyed cache entry always shows in the result."""
+
+    def __init__(self, fname: str):
+        self.fname = fname
+        self.kind, _, self.codec = fname.partition("_")
+
+    def __repr__(self):
+        return f"<codec {self.fname}>"
+
+    def __call__(self, content):
+        if not isinstance(content, (bytes, bytearray)):
+            raise TypeError(f"a bytes-like object is required, not {type(content).__name__!r}")
+        tag = self.codec.encode()
+        if self.kind == "encode":
+            return tag + b"(" + bytes(content) + b")"
+        if content.startswith(tag + b"(") and content.endswith(b")"):
+            return bytes(content[len(tag) + 1:-1])
+        raise ValueError(f"invalid {self.codec} data")
+
+
+def message_rec(headers: dict, raw, impl=("mitmproxy/http.py", "Message")):
+    """An abstract http.Message (bound to the repository class) over a case-insensitive header record."""
+    h = _DictRec("Headers", items=dict(headers), case_insensitive=True, _name="message.headers")
+    data = _Rec("MessageData", _name="message.data", headers=h, content=raw, trailers=None, http_version=b"HTTP/1.1", timestamp_start=1.0, timestamp_end=None)
+    return _Rec("Message", _bases=("Serializable",), _impl=impl, _name="message", data=data)
+
+
+def header_of(msg, name: str):
+    for k, v in msg.data.headers._items.items():
+        if isinstance(k, str) and k.lower() == name.lower():
+            return v
+    return None
